@@ -391,6 +391,8 @@ func cmdCheck(args []string) int {
 			}
 		}
 		if isKnown {
+			// a recorded violation: listed, and counted apart from the obligations claimed proved
+			total--
 			continue
 		}
 		violations++
@@ -463,6 +465,11 @@ func writeEvidence(path string, cfg *PropConfig, tier string, seed int, obs []*O
 	var boundedObs []map[string]any
 	covers, coversOK := 0, 0
 	trusted := map[string]bool{}
+	isKnownHit := map[string]bool{}
+	for _, k := range knownHit {
+		isKnownHit[k] = true
+	}
+	var knownObs []map[string]any
 	for _, ob := range obs {
 		solverTime += ob.TimeS
 		if ob.Cover {
@@ -474,6 +481,12 @@ func writeEvidence(path string, cfg *PropConfig, tier string, seed int, obs []*O
 		}
 		if ob.Bounded != "" {
 			boundedObs = append(boundedObs, map[string]any{"obligation": ob.Name, "bound": ob.Bounded, "result": ob.Result})
+			continue
+		}
+		// an obligation recorded as a known finding is a recorded VIOLATION, not part of what is claimed proved: it is
+		// listed (known_findings, known_finding_obligations) and counted apart from obligations / discharged
+		if isKnownHit[ob.Name] {
+			knownObs = append(knownObs, map[string]any{"obligation": ob.Name, "what": ob.Desc, "result": ob.Result, "at": ob.Pos})
 			continue
 		}
 		total++
@@ -520,6 +533,7 @@ func writeEvidence(path string, cfg *PropConfig, tier string, seed int, obs []*O
 			"decides":                  cfg.Decides,
 			"undecided_clauses":        cfg.Undecided,
 			"known_findings":           knownHit,
+			"known_finding_obligations": knownObs,
 			"violated_obligations":     vioNames,
 			"selftest":                 selftest,
 			"counterexample_replay":    replayEvidence(g, infos),
